@@ -57,7 +57,7 @@ ASSUMPTIONS = [
 ]
 TRUSTED = ["modelled rather than verified: extras/obfs/gecko.go and gecko_frame.go (hand transcription in coq/model/C14_Gecko.v); "
            "the two Go maps are association lists, Go map iteration order enters only as the eviction tie-break oracle"]
-PER_SHARD = 30
+PER_SHARD = 42
 EXTRA_TARGETS = ["corr/C14_Corr.vo"]
 TTL = 8_000_000_000
 PERIOD = TTL // 2
